@@ -6,7 +6,7 @@ Each `unsafe` precondition of the integer entropy models (`get_unchecked` bounds
 `into_nonzero_unchecked`, `unreachable_unchecked` after `binary_search_by`) is a
 `Fault.ub "<site>"` branch of the Impl model.  For every model a constructor or conversion
 can return, every query returns `.ok _` — or, for the lookup decoders at `P < B` and an
-out-of-contract quantile `≥ 2^P`, the documented `assert!` panic.  Constructors and
+out-of-contract quantile `≥ 2^P` (a `Probability` value, `< 2^B`), the documented `assert!` panic.  Constructors and
 conversions themselves return `.ok` or a clean rejection / panic.
 -/
 namespace CV.Cat
@@ -36,38 +36,36 @@ theorem C20_ncdec {Sym : Type} [Inhabited Sym] {B P : Nat} {m : NcDec Sym}
 /-- lookup decoders: in range ⇒ `.ok`; out of range ⇒ the `assert!` (only possible if
     `P < B`); never an unchecked out-of-bounds index or a zero `NonZero` -/
 theorem C20_lookup {B P : Nat} {tbl : Array Nat} {cs : List Nat} (h : ValidCdf B P cs) (hP : P ≤ B)
-    (hok : LookupOK P (unwrap P cs) tbl) (q : Nat) :
+    (hok : LookupOK P (unwrap P cs) tbl) (q : Nat) (hqB : q < 2 ^ B) :
     (q < 2 ^ P ∧ ∃ r, lookupQuantile B P tbl cs q = .ok r) ∨
     (2 ^ P ≤ q ∧ P < B ∧
-      lookupQuantile B P tbl cs q = .error (.panic "lookup.quantile_function.assert")) ∨
-    (2 ^ B ≤ q) := by
+      lookupQuantile B P tbl cs q = .error (.panic "lookup.quantile_function.assert")) := by
   rcases Nat.lt_or_ge q (2 ^ P) with hq | hq
   · exact Or.inl ⟨hq, _, lookupQuantile_eq h hP hok hq⟩
   · rcases Nat.lt_or_ge P B with hlt | hge
-    · exact Or.inr (Or.inl ⟨hq, hlt, lookupQuantile_out_of_range (by omega) (by omega)⟩)
+    · exact Or.inr ⟨hq, hlt, lookupQuantile_out_of_range (by omega) (by omega)⟩
     · have : P = B := by omega
       subst this
-      exact Or.inr (Or.inr hq)
+      omega
 
 /-- non-contiguous lookup decoder (the extra unchecked access to the symbol) -/
 theorem C20_nclookup {Sym : Type} [DecidableEq Sym] [Inhabited Sym] {B P : Nat}
     {labels : List Sym} {ext : List Nat} {last : Sym} {tbl : Array Nat}
     (h : ValidExt P ext) (hlen : labels.length + 1 = ext.length) (hP : P ≤ B)
-    (hok : LookupOK P ext tbl) (q : Nat) :
+    (hok : LookupOK P ext tbl) (q : Nat) (hqB : q < 2 ^ B) :
     let l : NcLookup Sym := { tbl := tbl, cdf := ncCdf B P labels ext last }
     (q < 2 ^ P ∧ ∃ r, l.dec B P q = .ok r) ∨
-    (2 ^ P ≤ q ∧ P < B ∧ l.dec B P q = .error (.panic "lookup.quantile_function.assert")) ∨
-    (2 ^ B ≤ q) := by
+    (2 ^ P ≤ q ∧ P < B ∧ l.dec B P q = .error (.panic "lookup.quantile_function.assert")) := by
   intro l
   rcases Nat.lt_or_ge q (2 ^ P) with hq | hq
   · exact Or.inl ⟨hq, _, NcLookup.dec_canon h hlen hP hok hq⟩
   · rcases Nat.lt_or_ge P B with hlt | hge
-    · refine Or.inr (Or.inl ⟨hq, hlt, ?_⟩)
+    · refine Or.inr ⟨hq, hlt, ?_⟩
       simp only [l, NcLookup.dec]
       rw [lookupQuantile_out_of_range (by omega) (by omega)]
     · have : P = B := by omega
       subst this
-      exact Or.inr (Or.inr hq)
+      omega
 
 /-- uniform model: constructor, encoder lookup, quantile function (any `Probability` value),
     symbol table -/
